@@ -9,10 +9,13 @@ import (
 	"fmt"
 	"io"
 	"math/big"
+	"os"
 	"os/exec"
 	"strings"
 	"time"
 )
+
+var lastQueryFile = os.Getenv("SYMGO_LASTQ")
 
 type Solver struct {
 	name    string
@@ -68,7 +71,7 @@ func (s *Solver) close() {
 	s.dead = true
 	s.in.Close()
 	s.cmd.Process.Kill()
-	s.cmd.Wait()
+	go s.cmd.Wait()
 }
 
 func (s *Solver) restart() {
@@ -91,18 +94,35 @@ func (s *Solver) check(asserts []*Term) (string, Model) {
 	}
 	body, vars := script(asserts)
 	var sb strings.Builder
-	sb.WriteString("(push 1)\n")
+	// z3: (reset) instead of push/pop keeps the non-incremental tactics
+	// (preprocessing + bit-blasting) available; every query is self-contained.
+	useReset := s.name != "cvc5"
+	if useReset {
+		fmt.Fprintf(&sb, "(reset)\n(set-option :produce-models true)\n(set-option :timeout %d)\n", s.timeout)
+	} else {
+		sb.WriteString("(push 1)\n")
+	}
 	sb.WriteString(body)
 	sb.WriteString("(check-sat)\n(echo \"ENDCHK\")\n")
+	if lastQueryFile != "" {
+		os.WriteFile(lastQueryFile, []byte(sb.String()), 0o644)
+	}
 	if _, err := io.WriteString(s.in, sb.String()); err != nil {
 		s.errors++
 		s.restart()
 		return "unknown", nil
 	}
+	// watchdog: z3's non-linear core can ignore its own timeout
+	proc := s.cmd.Process
+	wd := time.AfterFunc(time.Duration(s.timeout+3000)*time.Millisecond, func() { proc.Kill() })
 	lines, ok := s.readUntil("ENDCHK")
+	wd.Stop()
 	res := "unknown"
 	if !ok {
 		s.errors++
+		if verbose {
+			fmt.Println("SOLVER DIED on query:\n" + sb.String() + "\noutput: " + strings.Join(lines, "\n"))
+		}
 		s.restart()
 		return "unknown", nil
 	}
@@ -157,7 +177,9 @@ func (s *Solver) check(asserts []*Term) (string, Model) {
 			}
 		}
 	}
-	io.WriteString(s.in, "(pop 1)\n")
+	if !useReset {
+		io.WriteString(s.in, "(pop 1)\n")
+	}
 	switch res {
 	case "sat":
 		s.sat++
